@@ -79,6 +79,11 @@ func run(cfg lib.Cfg) error {
 			case quiescent:
 				msgs = append(msgs, r.ReorgOracle(r.Forks)...)
 			}
+			if wins := r.DepWindows(); len(msgs) > 0 && len(wins) > 0 {
+				// known limit of the mechanism (known_findings/C05.json): dependency read and
+				// reference lookups are not atomic with respect to the reference's unwind
+				msgs = append([]string{"a referenced integration unwound between the dependency read and the lookups of a step (" + wins[0] + ")"}, msgs...)
+			}
 			return msgs
 		}, func(r *ts.Run) bool {
 			pos, hit, miss, waited := 0, false, false, false
